@@ -497,6 +497,8 @@ MODEL_RECORDS = [
     {'pos': 111, 'ref': 'C', 'alts': ('T',), 'samples': {'S1': ('C', 'T'), 'S2': (None, None), 'S3': ('C', 'C')}},               # ignored conversion next to a missing call
     {'pos': 121, 'ref': 'G', 'alts': ('A',), 'samples': {'S1': ('G', 'A'), 'S2': ('A', None), 'S3': (None, 'G')}},
     {'pos': 131, 'ref': 'A', 'alts': ('AC',), 'samples': {'S1': ('A', 'AC'), 'S2': (None, None), 'S3': ('A', 'A')}},             # indel next to a missing call
+    {'pos': 141, 'ref': 'C', 'alts': ('G', 'CAA'), 'samples': {'S1': ('C', 'G'), 'S2': ('G', 'G'), 'S3': ('C', 'C')}},           # a listed multi-base allele nobody carries
+    {'pos': 151, 'ref': 'T', 'alts': ('A', 'TG'), 'samples': {'S1': ('T', 'A'), 'S2': ('A', 'A'), 'S3': ('TG', 'T')}},           # ... carried by an unselected sample only
 ]
 
 
